@@ -143,6 +143,19 @@ C14_CAPI = [
     ob("O14.10", CC + "capi_creat_mode", "pathrs_inroot_creat: create_file(flags verbatim, perm = mode minus type bits)", features="capi", stubs=["RootRef::create_file", "store_error"], tiers=("thorough",), cost=4),
 ]
 
+MK_STUBS = ["Resolver::resolve_partial", "Handle::reopen", "syscalls::mkdirat", "syscalls::openat_follow"]
+C12_OBS = [
+    ob("O12.1", ROOT + "root_mkdir_all_bad_mode", "mkdir_all with EVERY mode having a bit outside 0o1777: InvalidArgument and zero lookups/syscalls", stubs=["Resolver::resolve_partial"], cost=2),
+    ob("O12.2", ROOT + "root_mkdir_all_tail", "mkdir_all when the partial lookup stops with ENOENT and EVERY remaining tail <= L bytes: '..' among the components => ENOENT and nothing created; otherwise exactly mkdirat(cur,c,mode) + openat(cur,c,O_DIRECTORY|O_NOFOLLOW|O_CLOEXEC|O_NOCTTY) per non-empty non-'.' component, chained through the opened fds; EEXIST tolerated, any other errno aborts; handle returned = last opened fd; intermediates closed", stubs=MK_STUBS, cost=9),
+    ob("O12.3", ROOT + "root_mkdir_all_complete", "mkdir_all when the path already resolves: O_DIRECTORY reopen of the handle, zero mkdirat", stubs=MK_STUBS, covers_may_be_unsat=["one directory", "two directories", "dotdot refused", "aborted midway"], cost=5),
+    ob("O12.4", ROOT + "root_mkdir_all_partial_other_error", "mkdir_all when the partial lookup stopped for a reason other than ENOENT: that error, nothing created", stubs=["Resolver::resolve_partial"], covers_may_be_unsat=["nothing to create", "one directory", "two directories", "dotdot refused", "aborted midway"], tiers=("thorough",), cost=5),
+    ob("O12.5", ROOT + "root_mkdir_all_resolver_error", "mkdir_all when the resolver fails: error, nothing created", stubs=["Resolver::resolve_partial"], covers_may_be_unsat=["nothing to create", "one directory", "two directories", "dotdot refused", "aborted midway"], tiers=("thorough",), cost=4),
+]
+O_RA_TOP = [
+    ob("O13.2a", ROOT + "root_remove_all_top_base", "Root::remove_all: utils::remove_all is called exactly once on (resolve_parent fd, base)", stubs=["RootRef::resolve_parent", "utils::remove_all"], covers_may_be_unsat=["trailing slash refused"], cost=5),
+    ob("O13.2b", ROOT + "root_remove_all_top_nobase", "Root::remove_all with a trailing slash / empty path: InvalidArgument, nothing removed", stubs=["RootRef::resolve_parent", "utils::remove_all"], covers_may_be_unsat=["removed"], cost=4),
+]
+
 PROPERTIES = {
     "C14": {
         "explanation": "C14: every single-entry Root operation is executed on a symbolic path (every byte string <= L), symbolic "
@@ -170,7 +183,7 @@ PROPERTIES = {
                        "sub-directory descriptor is closed. Root::remove_all's (parent, name) split is O14.0 + the remove_all top harness of C03.",
         "outside": "recursion below the first directory listing (rustix Dir cannot be modelled: listing always fails); concurrent remove_all; names longer than L",
         "assumptions": ["Dir::read_from always fails with an arbitrary errno", "kernel K"],
-        "obligations": C13_OBS,
+        "obligations": C13_OBS + O_RA_TOP,
     },
     "C06": {
         "explanation": "C06: every verification primitive (fetch_mnt_id, verify_same_mnt, verify_is_procfs, try_from_fd) is decided for every kernel answer, and "
@@ -203,5 +216,12 @@ PROPERTIES = {
         "outside": "the other pathrs_* entry points (same closure pattern, not each executed); link bodies longer than L; that callers' buffers really are bufsize bytes",
         "assumptions": ["store_error returns some id <= -4096 (its own behaviour: C16)", "Root::create / resolve replaced by recording stubs"],
         "obligations": C17_OBS,
+    },
+    "C12": {
+        "explanation": "C12 (sequential part): Root::mkdir_all is executed with Resolver::resolve_partial and Handle::reopen replaced by contract stubs; the not-yet-existing tail is every byte string <= L, the mode every u32, the kernel arbitrary.",
+        "outside": "convergence of concurrent callers (Kani has no threads); that the handle equals an independent in-root resolution (resolver); umask / setgid inheritance (kernel); tails longer than L",
+        "assumptions": ["resolve_partial returns (arbitrary in-root fd, arbitrary tail) per its contract", "Handle::reopen returns an arbitrary fd of the same object or an error"],
+        "bounds": {"quick": {"PATH_L": 3}, "thorough": {"PATH_L": 4}},
+        "obligations": C12_OBS,
     },
 }
